@@ -1558,23 +1558,21 @@ fn encoding_range(plan: &TypedBufferRef, qp: &QueryPlanner) -> Option<(i64, i64)
     use self::QueryPlan::*;
     match *qp.resolve(plan) {
         ColumnSection { range, .. } => range,
-        ToYear { timestamp, .. } => encoding_range(&timestamp, qp).map(|(min, max)| {
-            (
-                i64::from(DateTime::from_timestamp(min, 0).unwrap().year()),
-                i64::from(DateTime::from_timestamp(max, 0).unwrap().year()),
-            )
+        ToYear { timestamp, .. } => encoding_range(&timestamp, qp).and_then(|(min, max)| {
+            Some((
+                i64::from(DateTime::from_timestamp(min, 0)?.year()),
+                i64::from(DateTime::from_timestamp(max, 0)?.year()),
+            ))
         }),
         Filter { ref plan, .. } => encoding_range(plan, qp),
         Divide {
             ref lhs, ref rhs, ..
         } => {
             if let ScalarI64 { value: c, .. } = qp.resolve(rhs) {
-                encoding_range(lhs, qp).map(|(min, max)| {
-                    if *c > 0 {
-                        (min / *c, max / *c)
-                    } else {
-                        (max / *c, min / *c)
-                    }
+                // None (range unknown) for a zero divisor and for i64::MIN / -1
+                encoding_range(lhs, qp).and_then(|(min, max)| {
+                    let (lo, hi) = (min.checked_div(*c)?, max.checked_div(*c)?);
+                    Some(if *c > 0 { (lo, hi) } else { (hi, lo) })
                 })
             } else {
                 None
@@ -1584,12 +1582,10 @@ fn encoding_range(plan: &TypedBufferRef, qp: &QueryPlanner) -> Option<(i64, i64)
             ref lhs, ref rhs, ..
         } => {
             if let ScalarI64 { value: c, .. } = qp.resolve(rhs) {
-                encoding_range(lhs, qp).map(|(min, max)| {
-                    if *c > 0 {
-                        (min / *c, max / *c)
-                    } else {
-                        (max / *c, min / *c)
-                    }
+                // None (range unknown) for a zero divisor and for i64::MIN / -1
+                encoding_range(lhs, qp).and_then(|(min, max)| {
+                    let (lo, hi) = (min.checked_div(*c)?, max.checked_div(*c)?);
+                    Some(if *c > 0 { (lo, hi) } else { (hi, lo) })
                 })
             } else {
                 None
@@ -1599,7 +1595,8 @@ fn encoding_range(plan: &TypedBufferRef, qp: &QueryPlanner) -> Option<(i64, i64)
             ref lhs, ref rhs, ..
         } => {
             if let ScalarI64 { value: c, .. } = qp.resolve(rhs) {
-                encoding_range(lhs, qp).map(|(min, max)| (min + *c, max + *c))
+                encoding_range(lhs, qp)
+                    .and_then(|(min, max)| Some((min.checked_add(*c)?, max.checked_add(*c)?)))
             } else {
                 None
             }
@@ -1617,11 +1614,11 @@ fn encoding_range(plan: &TypedBufferRef, qp: &QueryPlanner) -> Option<(i64, i64)
         } => {
             let (min_lhs, max_lhs) = encoding_range(lhs, qp)?;
             let (min_rhs, max_rhs) = encoding_range(rhs, qp)?;
-            // TODO: overflow
-            let p1 = min_lhs * min_rhs;
-            let p2 = min_lhs * max_rhs;
-            let p3 = max_lhs * min_rhs;
-            let p4 = max_lhs * max_rhs;
+            // None (range unknown) if a corner product does not fit
+            let p1 = min_lhs.checked_mul(min_rhs)?;
+            let p2 = min_lhs.checked_mul(max_rhs)?;
+            let p3 = max_lhs.checked_mul(min_rhs)?;
+            let p4 = max_lhs.checked_mul(max_rhs)?;
             let min = p1.min(p2).min(p3).min(p4);
             let max = p1.max(p2).max(p3).max(p4);
             Some((min, max))
@@ -1631,11 +1628,11 @@ fn encoding_range(plan: &TypedBufferRef, qp: &QueryPlanner) -> Option<(i64, i64)
         } => {
             let (min_lhs, max_lhs) = encoding_range(lhs, qp)?;
             let (min_rhs, max_rhs) = encoding_range(rhs, qp)?;
-            // TODO: overflow
-            let p1 = min_lhs * min_rhs;
-            let p2 = min_lhs * max_rhs;
-            let p3 = max_lhs * min_rhs;
-            let p4 = max_lhs * max_rhs;
+            // None (range unknown) if a corner product does not fit
+            let p1 = min_lhs.checked_mul(min_rhs)?;
+            let p2 = min_lhs.checked_mul(max_rhs)?;
+            let p3 = max_lhs.checked_mul(min_rhs)?;
+            let p4 = max_lhs.checked_mul(max_rhs)?;
             let min = p1.min(p2).min(p3).min(p4);
             let max = p1.max(p2).max(p3).max(p4);
             Some((min, max))
@@ -1649,6 +1646,12 @@ fn encoding_range(plan: &TypedBufferRef, qp: &QueryPlanner) -> Option<(i64, i64)
             None
         }
     }
+}
+
+/// The grouping code shifts keys by `-min + 1` and sizes accumulators by `max - min + 1` (+ 1 for
+/// the NULL slot). A range for which that arithmetic does not fit i64 is as good as unknown.
+fn fits_grouping_arithmetic(&(min, max): &(i64, i64)) -> bool {
+    min > i64::MIN && max < i64::MAX && max.checked_sub(min).and_then(|w| w.checked_add(2)).is_some()
 }
 
 /// Encodes information about compiled query plans for projections in GROUP BY clause, yielding single key that can be used for grouping.
@@ -1706,7 +1709,7 @@ pub fn compile_grouping_key(
         }
 
         let original_plan = gk_plan;
-        let encoding_range = encoding_range(&gk_plan, planner);
+        let encoding_range = encoding_range(&gk_plan, planner).filter(fits_grouping_arithmetic);
         debug!("Encoding range of {:?} for {:?}", &encoding_range, &gk_plan);
         let (max_cardinality, offset) = match encoding_range {
             Some((min, max)) => {
@@ -1850,7 +1853,7 @@ fn try_bitpacking(
     for expr in exprs.iter().rev() {
         let (query_plan, plan_type) =
             QueryPlan::compile_expr(expr, filter, columns, partition_len, planner)?;
-        let encoding_range = encoding_range(&query_plan, planner);
+        let encoding_range = encoding_range(&query_plan, planner).filter(fits_grouping_arithmetic);
         debug!(
             "Encoding range of {:?} for {:?}",
             &encoding_range, &query_plan
@@ -1875,6 +1878,11 @@ fn try_bitpacking(
             } else {
                 max
             };
+            // The combined key has to fit 63 bits: give up before shifting beyond that
+            if total_width + bits(adjusted_max) > 63 {
+                planner.reset();
+                return Ok(None);
+            }
             order_preserving = order_preserving && plan_type.is_order_preserving();
             let adjusted_query_plan = if query_plan.is_nullable() {
                 let fused = planner.fuse_int_nulls(-min + 1, query_plan);
